@@ -43,6 +43,8 @@ def with_nth(s, wn, delim):
             return "".join(f[1:])
         if expr == "1":
             return "".join(f[0:1])
+        if expr == "1..":
+            return "".join(f)
         raise ValueError(expr)
     if wn.startswith("{"):
         return re.sub(r"\{([0-9.]+)\}", lambda m: strip_last(sel(m.group(1)), delim), wn)
@@ -327,13 +329,13 @@ def run(c, replay):
                 continue
             for read0, print0, ansi, pq, nosort in itertools.product((False, True), repeat=5):
                 for q in ("", "a", "zzz"):
-                    for wn, d in ((None, None), ("2", ":"), ("2..", ":"), ("{2}:{1}", ":"), ("2", "[:,]")):
+                    for wn, d in ((None, None), ("2", ":"), ("2..", ":"), ("{2}:{1}", ":"), ("2", "[:,]"), ("1..", ":")):
                         if q == "a" and wn and any("\x1b" in r for r in recs):
                             continue
                         if n == 3 and (read0 != print0 or (wn and d != ":")):
                             continue  # thin the third record level
                         jobs.append((recs, dict(read0=read0, print0=print0, ansi=ansi, pq=pq, nosort=nosort, q=q, wn=wn, d=d)))
-    c.bounds["filter"] = dict(records="<=%d from a %d-record pool" % (nrec, len(POOL)), options="read0 x print0 x ansi x print-query x no-sort x 3 queries x 5 with-nth/delimiter settings")
+    c.bounds["filter"] = dict(records="<=%d from a %d-record pool" % (nrec, len(POOL)), options="read0 x print0 x ansi x print-query x no-sort x 3 queries x 6 with-nth/delimiter settings (incl. 1.., which reproduces the whole record)")
     sweep.run_jobs(c, "filter", filter_job, jobs, deadline_s=c.pick(90, 900),
                    rule="fzf --filter processes over all record lists x option combinations; stdout compared byte-wise with the framing model; non-trivial = runs that must print at least one record")
     errs = [("--nth", "0"), ("--bogus",), ("--with-nth", ""), ("--tiebreak", "x"), ("--height", "-x"), ("--bind", "a:nonexistent-action"),
